@@ -347,5 +347,6 @@ EXPLANATION = (
     "refusal returns an error without touching has_failure. R4: read/get_continuous_blocks/get_bounds iterate over the "
     "whole top-level directory list with no early exit. R5: get_bounds merges the first and the last sample of each directory with two "
     "independent comparisons. Does NOT decide union/bounds arithmetic across sessions.")
+TECHNIQUE = ("clang JSON AST + Python ast; attribute comparison table; effect-free prefix by effect summaries; dominance of the existence test; CFG must-pass in the reader's directory loops")
 ASSUMPTIONS = ["H5F_ACC_EXCL fails on an existing file", "the same file period is never recorded in two directories (format rule)"]
 FILES = [C_LIB, C_EXT, "python/digital_rf/digital_rf_hdf5.py"]
